@@ -36,6 +36,7 @@ func (r *SplitMix) Bytes(n int) []byte {
 //   periodic  period-3 pattern
 //   dupslice  slice 0 repeated at slice 2 (if long enough)
 //   trailzero uniq with the last min(n, s) bytes zero
+//   crccollide two different slices with equal CRC-32
 func Content(class string, seed int64, fileIdx, n, sliceSize int) []byte {
 	r := NewRand(uint64(seed)*0x1000193 + uint64(fileIdx)*0x9e3779b1 + 7)
 	switch class {
@@ -47,6 +48,17 @@ func Content(class string, seed int64, fileIdx, n, sliceSize int) []byte {
 			b[i] &= 0x7f
 			if b[i] == 0 {
 				b[i] = byte(1 + (i*7+fileIdx)%120)
+			}
+		}
+		return b
+	case "crccollide":
+		// uniq content in which slice 1 is slice 0 xor a multiple of the CRC-32 generator polynomial: two
+		// DIFFERENT slices with the SAME CRC-32 (needs a slice size >= 8)
+		b := Content("uniq", seed, fileIdx, n, sliceSize)
+		if sliceSize >= 8 && n >= 2*sliceSize {
+			copy(b[sliceSize:2*sliceSize], b[0:sliceSize])
+			for i, x := range []byte{0x41, 0x06, 0x71, 0xDB, 0x01} {
+				b[sliceSize+1+i] ^= x
 			}
 		}
 		return b
